@@ -189,6 +189,24 @@ func c17Request(r *rng, big bool) {
 				}
 			}
 		}
+		if bodyKind == 1 {
+			// form requests: the same key in the URL query and in the form body with DIFFERENT values, and keys only in the form
+			for _, st := range g.structs {
+				for _, f := range st.Fields {
+					if big {
+						continue
+					}
+					for _, a := range f.Anns {
+						if (a.Kind == hkQuery || a.Kind == hkForm || a.Kind == hkBody) && r.chance(45) {
+							pops = append(pops, hPop{Kind: hkForm, Key: a.Key, Val: g.httpText(f.T)})
+							if r.chance(50) {
+								pops = append(pops, hPop{Kind: hkQuery, Key: a.Key, Val: g.httpText(f.T)})
+							}
+						}
+					}
+				}
+			}
+		}
 		var jbody []byte
 		if bodyKind == 2 {
 			jbody = []byte(g.jsonText(root, 0))
@@ -201,11 +219,13 @@ func c17Request(r *rng, big bool) {
 			if impl == 1 && g.goUnsafeEsc {
 				continue
 			}
-			req, err := buildRequest(pops, bodyKind, jbody, uriPath)
+			req, intended, err := buildRequest2(pops, bodyKind, jbody, uriPath)
 			if err != nil {
 				die("C17: request: %v", err)
 			}
 			view := requestView(req, keys)
+			view = append(view, fi(bodyKind))
+			view = append(view, intendedView(intended.q, intended.form, intended.hdr, intended.params, keys)...)
 			ctx := context.WithValue(context.Background(), conv.CtxKeyHTTPRequest, http.RequestGetter(req))
 			ctx = context.WithValue(ctx, conv.CtxKeyConvOptions, c17Opts(bits)) // read by api.no_body_struct
 			var outb []byte
